@@ -90,6 +90,10 @@ def setdefault(self, key, default=None):
 ''').body}
 
 
+class KeysList(list):
+    """what dict.keys() hands out: the keys in order (a list for every reader), set-like in comparisons with a set"""
+
+
 class Key:
     """a key symbol: (equivalence class, spelling)"""
     __slots__ = ('cls', 'spelling')
@@ -1176,7 +1180,8 @@ class Interp:
             if isinstance(l, (SStr, SInt)) or isinstance(r, (SStr, SInt)) or any(isinstance(x, tuple) and x and x[0] == 'linecount' for x in (l, r)):
                 return self.sym_compare(l, op, r, e)
             if isinstance(op, (ast.Is, ast.IsNot)):
-                same = (l is None and r is None) or (isinstance(l, Ref) and isinstance(r, Ref) and l == r) or (l is r)
+                same = (l is None and r is None) or (isinstance(l, Ref) and isinstance(r, Ref) and l == r) or (l is r) or (
+                    isinstance(l, tuple) and isinstance(r, tuple) and len(l) == 2 and l[0] == 'class' and l == r and isinstance(l[1], str))      # one class object per class
                 return same if isinstance(op, ast.Is) else not same
             if isinstance(op, (ast.Eq, ast.NotEq)):
                 if isinstance(l, Key) and isinstance(r, Key):
@@ -1212,6 +1217,11 @@ class Interp:
                     return res if isinstance(op, ast.In) else not res
             if isinstance(l, int) and isinstance(r, int):
                 return {ast.Lt: l < r, ast.LtE: l <= r, ast.Gt: l > r, ast.GtE: l >= r}[type(op)]
+            if isinstance(op, (ast.Lt, ast.LtE, ast.Gt, ast.GtE)) and isinstance(l, (set, frozenset, KeysList)) and isinstance(r, (set, frozenset, KeysList)) \
+                    and all(isinstance(x_, (str, bytes, int, tuple)) for x_ in list(l) + list(r)):
+                # subset / superset of two sets (a keys view is set-like) of decided plain values
+                sl_, sr_ = set(l), set(r)
+                return {ast.Lt: sl_ < sr_, ast.LtE: sl_ <= sr_, ast.Gt: sl_ > sr_, ast.GtE: sl_ >= sr_}[type(op)]
             if isinstance(op, (ast.Lt, ast.LtE, ast.Gt, ast.GtE)) and (
                     (isinstance(l, Ref) and h.objs[l.name]['__class__'] in h.module.classes) or (isinstance(r, Ref) and h.objs[r.name]['__class__'] in h.module.classes)):
                 # an object of the module on one side: its own rich comparison method, else the reflected one of the other side
@@ -1395,6 +1405,15 @@ class Interp:
         if isinstance(e, ast.Slice):
             return slice(self.ev(e.lower, env, cls) if e.lower else None, self.ev(e.upper, env, cls) if e.upper else None,
                          self.ev(e.step, env, cls) if e.step else None)
+        if isinstance(e, (ast.Tuple, ast.List, ast.Set)) and any(isinstance(x, ast.Starred) for x in e.elts):
+            # [a, *rest] / (*xs, b): the items of a starred operand in place, left to right (an iterator is walked to its end)
+            items_ = []
+            for x in e.elts:
+                if isinstance(x, ast.Starred):
+                    items_.extend(self.seq(self.ev(x.value, env, cls)))
+                else:
+                    items_.append(self.ev(x, env, cls))
+            return tuple(items_) if isinstance(e, ast.Tuple) else h.new_list(items_) if isinstance(e, ast.List) else set(items_)
         if isinstance(e, ast.Tuple):
             return tuple(self.ev(x, env, cls) for x in e.elts)
         if isinstance(e, ast.List):
@@ -2110,7 +2129,7 @@ class Interp:
             b_ = self.ev(fn.value, env, cls)
             if isinstance(b_, Ref) and h.objs[b_.name]['__class__'] == 'dict':
                 ent = h.objs[b_.name]['entries']
-                return [(k, v) for k, v in ent] if fn.attr == 'items' else [k for k, _ in ent] if fn.attr == 'keys' else [v for _, v in ent]
+                return [(k, v) for k, v in ent] if fn.attr == 'items' else KeysList(k for k, _ in ent) if fn.attr == 'keys' else [v for _, v in ent]
         if isinstance(fn, ast.Name) and fn.id == 'filter' and len(args) == 2 and 'filter' not in env:
             return [x for x in self.seq(args[1]) if (self.truth(self.apply(args[0], [x])) if args[0] is not None else self.truth(x))]
         if isinstance(fn, ast.Attribute) and (getattr(h, 'native_regex', False) or (isinstance(fn.value, ast.Name) and isinstance(env.get(fn.value.id), __import__('re').Match))):
@@ -2495,7 +2514,15 @@ class Interp:
                 return True
             eq_ = h.module.method(oa['__class__'], '__eq__') if oa['__class__'] in h.module.classes else None
             if eq_ is not None:
-                return self.truth(self.call(Closure(eq_.node, {}, a, eq_.cls), [b]))
+                res_ = self.call(Closure(eq_.node, {}, a, eq_.cls), [b])
+                if not (res_ is NotImplemented or (isinstance(res_, tuple) and res_ == ('NotImplemented',))):
+                    return self.truth(res_)
+                # NotImplemented: the reflected method of the other side, then identity (which is False here)
+                eqb_ = h.module.method(ob['__class__'], '__eq__') if ob['__class__'] in h.module.classes else None
+                if eqb_ is not None:
+                    res_ = self.call(Closure(eqb_.node, {}, b, eqb_.cls), [a])
+                    if not (res_ is NotImplemented or (isinstance(res_, tuple) and res_ == ('NotImplemented',))):
+                        return self.truth(res_)
             return False
         return False
 
@@ -2770,6 +2797,12 @@ class Interp:
                 return getattr(s, meth)(a)
             if meth in ('strip', 'lstrip', 'rstrip'):
                 return getattr(s, meth)(*args)
+            if meth in ('removesuffix', 'removeprefix') and len(args) == 1 and not kwargs and isinstance(args[0], str):
+                # str.removesuffix(c) / removeprefix(c) with a decided c: the slice when the text ends (starts) with c, else the text
+                if not args[0]:
+                    return s
+                src_ = '(S[:-%d] if S.endswith(C) else S)' if meth == 'removesuffix' else '(S[%d:] if S.startswith(C) else S)'
+                return self.ev(ast.fix_missing_locations(ast.parse(src_ % len(args[0]), mode='eval')).body, {'S': s, 'C': args[0]}, None)
             if meth in ('isascii', 'isdigit', 'isdecimal', 'isspace') and not args:
                 # a predicate on all characters: decided on the language of the string (isascii: every character below U+0080, true
                 # for the empty string; the others: non-empty and every character in the class)
